@@ -77,6 +77,7 @@ func itemsEq(a, b []item) bool {
 // Expr is one node of an expression tree.
 //
 //	nil | slice xs | from x | pfrom kv | tw/dw/flt p e | map m e | plus l r | join/toseq/fromseq j e
+//	| joinx/toseqx/fromseqx p e a b   (flat-map by an expression-valued function)
 type Expr struct {
 	Op string `json:"op"`
 	Xs []int  `json:"xs"`
@@ -88,6 +89,8 @@ type Expr struct {
 	E  *Expr  `json:"e"`
 	L  *Expr  `json:"l"`
 	R  *Expr  `json:"r"`
+	A  *Expr  `json:"a"` // joinx / toseqx / fromseqx: the function maps an item to A when P holds for it, else to B
+	B  *Expr  `json:"b"`
 }
 
 func (e *Expr) MarshalJSON() ([]byte, error) {
@@ -112,6 +115,8 @@ func (e *Expr) MarshalJSON() ([]byte, error) {
 		m["l"], m["r"] = e.L, e.R
 	case "join", "toseq", "fromseq":
 		m["j"], m["e"] = e.J, e.E
+	case "joinx", "toseqx", "fromseqx":
+		m["p"], m["e"], m["a"], m["b"] = e.P, e.E, e.A, e.B
 	default:
 		return nil, fmt.Errorf("unknown op %q", e.Op)
 	}
@@ -288,6 +293,14 @@ func (v *env) ppred(name string) func(int, int) bool {
 	return func(k, x int) bool { v.log(name, k, x); return f(k, x) }
 }
 
+// either is the expression-valued function of joinx: A where the selecting predicate holds, B otherwise.
+func either(holds bool, e *Expr) *Expr {
+	if holds {
+		return e.A
+	}
+	return e.B
+}
+
 func (v *env) buildSeq(e *Expr) seq.Seq[int] {
 	if e == nil {
 		panic(harnessBug("missing sub-expression"))
@@ -317,6 +330,12 @@ func (v *env) buildSeq(e *Expr) seq.Seq[int] {
 	case "join":
 		f := lookup(seqJoins, "flat-map function", e.J)
 		return seq.Join(v.buildSeq(e.E), func(x int) seq.Seq[int] { v.log(e.J, x); return v.buildSeq(f(x)) })
+	case "joinx":
+		sel := lookup(seqPreds, "predicate", e.P)
+		return seq.Join(v.buildSeq(e.E), func(x int) seq.Seq[int] { v.log("joinx", x); return v.buildSeq(either(sel(x), e)) })
+	case "toseqx":
+		sel := lookup(pairPreds, "pair predicate", e.P)
+		return pair.ToSeq(v.buildPair(e.E), func(k, x int) seq.Seq[int] { v.log("joinx", k, x); return v.buildSeq(either(sel(k, x), e)) })
 	case "toseq":
 		f := lookup(toSeqJoins, "ToSeq function", e.J)
 		return pair.ToSeq(v.buildPair(e.E), func(k, x int) seq.Seq[int] { v.log(e.J, k, x); return v.buildSeq(f(k, x)) })
@@ -352,6 +371,12 @@ func (v *env) buildPair(e *Expr) pair.Seq[int, int] {
 	case "join":
 		f := lookup(pairJoins, "pair flat-map function", e.J)
 		return pair.Join(v.buildPair(e.E), func(k, x int) pair.Seq[int, int] { v.log(e.J, k, x); return v.buildPair(f(k, x)) })
+	case "joinx":
+		sel := lookup(pairPreds, "pair predicate", e.P)
+		return pair.Join(v.buildPair(e.E), func(k, x int) pair.Seq[int, int] { v.log("joinx", k, x); return v.buildPair(either(sel(k, x), e)) })
+	case "fromseqx":
+		sel := lookup(seqPreds, "predicate", e.P)
+		return pair.FromSeq(v.buildSeq(e.E), func(x int) pair.Seq[int, int] { v.log("joinx", x); return v.buildPair(either(sel(x), e)) })
 	case "fromseq":
 		f := lookup(fromSeqJoins, "FromSeq function", e.J)
 		return pair.FromSeq(v.buildSeq(e.E), func(x int) pair.Seq[int, int] { v.log(e.J, x); return v.buildPair(f(x)) })
@@ -418,6 +443,7 @@ type observation struct {
 	Steps     []stepObs `json:"steps"`
 	Post      postObs   `json:"post"`      // Value() of the exhausted iterator (nobody promises anything about it)
 	PostPanic string    `json:"postpanic"` // the panic of that probe
+	Repoll    string    `json:"repoll"`    // Next() of the exhausted iterator polled once more: "false" | "true" | "panic"; "none" when nil / not probed
 	Truncated bool      `json:"truncated"` // gave up after `limit` steps
 	Panic     string    `json:"panic"`     // the library panicked while constructing / draining
 	SrcOK     bool      `json:"srcok"`
@@ -440,7 +466,7 @@ func recovered(r any) string {
 
 func observe(kind string, e *Expr, limit int) (o observation) {
 	v := &env{}
-	o.Cc, o.Steps, o.Post = []call{}, []stepObs{}, postObs{V: item{0}}
+	o.Cc, o.Steps, o.Post, o.Repoll = []call{}, []stepObs{}, postObs{V: item{0}}, "none"
 	var c cursor
 	func() {
 		defer func() {
@@ -474,6 +500,15 @@ func observe(kind string, e *Expr, limit int) (o observation) {
 			}()
 			it, _ := c.value()
 			o.Post = postObs{V: it}
+		}()
+		func() {
+			defer func() {
+				if r := recover(); r != nil {
+					recovered(r)
+					o.Repoll = "panic"
+				}
+			}()
+			o.Repoll = fmt.Sprint(c.next())
 		}()
 	}
 	return o
